@@ -121,30 +121,47 @@ func (p *proc) exchange(m Msg, id int) (rep reply, died bool, herr error) {
 	if err := p.write(frame(m.body(id))); err != nil {
 		return reply{crashed: true, panicV: "write failed: " + err.Error()}, true, nil
 	}
-	want := 1
-	if m.isUpdate() {
-		want = 2 // publishDiagnostics, then the (null) response the server sends for every message
-	}
-	for k := 0; k < want; k++ {
-		b, err := p.readFrame()
-		if err != nil {
-			if strings.HasPrefix(err.Error(), "watchdog") {
-				return rep, false, err
+	// Read until the response to this message has arrived; notifications are
+	// collected as they come (their order relative to the response is not promised).
+	readUntilResponse := func() (bool, error) {
+		for k := 0; k < 8; k++ {
+			b, err := p.readFrame()
+			if err != nil {
+				if strings.HasPrefix(err.Error(), "watchdog") {
+					return false, err
+				}
+				rep = reply{crashed: true, panicV: "server process ended: " + err.Error()}
+				return true, nil
 			}
-			return reply{crashed: true, panicV: "server process ended: " + err.Error()}, true, nil
+			v, _ := decode(b).(map[string]any)
+			if v == nil {
+				return false, fmt.Errorf("undecodable frame %q", core.Truncate(string(b), 100))
+			}
+			if _, isNotif := v["method"]; isNotif {
+				rep.notifs = append(rep.notifs, b)
+				continue
+			}
+			rep.result = v["result"]
+			return false, nil
 		}
-		v, _ := decode(b).(map[string]any)
-		if v == nil {
-			return rep, false, fmt.Errorf("undecodable frame %q", core.Truncate(string(b), 100))
+		return false, fmt.Errorf("8 frames without a response")
+	}
+	died, herr = readUntilResponse()
+	if herr != nil || died {
+		return rep, died, herr
+	}
+	if m.isUpdate() && len(rep.notifs) == 0 {
+		// No diagnostics yet. The server handles messages one at a time, so once it has
+		// answered a follow-up request everything the update published has been written:
+		// no timing is involved in deciding that nothing was published.
+		saved := rep.result
+		if err := p.write(frame(Msg{Kind: "unknown"}.body(900000 + id))); err != nil {
+			return reply{crashed: true, panicV: "write failed: " + err.Error()}, true, nil
 		}
-		if _, isNotif := v["method"]; isNotif {
-			rep.notifs = append(rep.notifs, b)
-			continue
-		}
-		rep.result = v["result"]
-		if k < want-1 {
-			// response arrived before the notification: a crash-free server publishes first
-			return rep, false, nil
+		died, herr = readUntilResponse()
+		rep.result = saved
+		if herr != nil || died {
+			return rep, died, herr
 		}
 	}
 	return rep, false, nil
